@@ -72,6 +72,7 @@ def load_assembler_module():
     mod = px.load_module(REL_ASM)
     mod.coo_matrix = SymCOO
     mod.onp = ONP()
+    c14.install_builtin_shims(mod)
     return mod
 
 
@@ -694,7 +695,8 @@ def o2_newmark_nonlinear(h):
 BLOCKINGS = {
     '2el_split': (2, (('left', (0,)), ('right', (1,)))),
     '2el_split_reversed_keys': (2, (('b', (1,)), ('a', (0,)))),
-    '3el_interleaved': (3, (('outer', (0, 2)), ('middle', (1,)))),
+    '3el_interleaved': (3, (('outer', (0, 2)), ('middle', (1,)))),                   # a block whose element ids are not one consecutive run
+    '3el_interleaved_descending': (3, (('middle', (1,)), ('outer', (2, 0)))),        # ... listed in descending order, after the other block
 }
 
 
@@ -729,8 +731,11 @@ def _blocks_spec(i, o):
                      Eq(k2, k1, name='element_stiffnesses_multi_block_eq_single_block', scale=1.0)]
 
 
-BLOCK_QUICK = [('neohookean', '2el_split', 1), ('synthetic', '2el_split', 2), ('green_lagrange', '2el_split_reversed_keys', 2)]
-BLOCK_THOROUGH = [('synthetic', '3el_interleaved', 2), ('neohookean', '3el_interleaved', 1), ('linear', '2el_split', 2), ('neohookean_coupled', '2el_split_reversed_keys', 2)]
+# the synthetic material is state dependent (energy, stiffness and state update all read the internal variables), and the internal state is a free real
+# per element / quadrature point / variable: a block loop that reads the wrong elements' state is visible
+BLOCK_QUICK = [('neohookean', '2el_split', 1), ('synthetic', '3el_interleaved', 2), ('synthetic', '3el_interleaved_descending', 1), ('green_lagrange', '2el_split_reversed_keys', 2)]
+BLOCK_THOROUGH = [('synthetic', '2el_split', 2), ('synthetic', '3el_interleaved_descending', 2), ('neohookean', '3el_interleaved', 1), ('linear', '2el_split', 2),
+                  ('neohookean_coupled', '2el_split_reversed_keys', 2)]
 
 
 def _register_o3():
